@@ -159,7 +159,7 @@ def run_file(item):
     res = {'counters': {'files': 0, 'ops': 0, 'nontrivial': 0, 'gap_files': 0, 'truncated_files': 0},
            'outcomes': {}, 'violations': [], 'samples': []}
     variants = [(None, data, False)]
-    if truncate and kind not in ('str', 'strb'):
+    if truncate and kind not in ('str', 'strb', 'shortmid', 'shortmid-il'):
         for c in cuts_for(layout, tier):
             variants.append((c, data[:c], False))
     if kind == 'ts':
@@ -177,7 +177,7 @@ def run_file(item):
         if cut is not None:
             res['counters']['truncated_files'] += 1
         if cut is None and L >= 0:
-            exp = H.expected_array(ref, F.A) if kind != 'daqmx' else None
+            exp = H.expected_array(ref, F.A) if kind not in ('daqmx', 'shortmid', 'shortmid-il') else None
             if exp is not None and exp[1] != L:
                 bad.append(('full-length', 'eager', 'len', exp[1], L))
         res['outcomes']['clean' if not bad else 'deviates'] = res['outcomes'].get('clean' if not bad else 'deviates', 0) + 1
@@ -211,6 +211,15 @@ def files(tier):
             # channels that never hold a value / hold zero values in a listed segment
             out += [(kind, o) for o in [((0, 1),), ('nod',), ((0, 1), (2, 1)), ((2, 1), (0, 1), (2, 2)),
                                         ((1, 2), (0, 1), (3, 2)), ('nod', (0, 1))]]
+    # segment lengths whose running totals coincide with multiples of the first (4,2,6 -> 4,6,12 = 3 x 4): every (a,b,c) in 1..4
+    import itertools
+    out += [('int', ((a, 1), (b, 1), (c, 1))) for a, b, c in itertools.product((1, 2, 3, 4), repeat=3)]
+    # short last chunks in segments that are not the last one
+    for kind in ('shortmid', 'shortmid-il'):
+        opts_ = [(2, 2), (3, 2), (2, 3), (3, 1)] if kind == 'shortmid' else [(2, 2), (3, 2), (2, 3)]
+        out += [(kind, (x,)) for x in opts_]
+        out += [(kind, (x, y)) for x in opts_ for y in opts_ + ['abs']]
+        out += [(kind, (x, y, z)) for x in opts_[:2] for y in opts_[:2] + ['nod'] for z in [(2, 2), (1, 1)]]
     return out
 
 
@@ -230,7 +239,7 @@ def run(ctx):
     cov = {'evaluations': c['ops'], 'files': c['files'], 'distinct_nontrivial': c['nontrivial'],
            'rule': 'evaluations = individual window/slice/index operations; distinct_nontrivial = distinct files '
                    '(distinct parameter tuples incl. cut offset) whose channel holds >= 2 values',
-           'gap_files': c['gap_files'], 'truncated_files': c['truncated_files'], 'kinds': F.F4_KINDS,
+           'gap_files': c['gap_files'], 'truncated_files': c['truncated_files'], 'kinds': F.F4_KINDS + ['shortmid', 'shortmid-il'],
            'outcomes': m['outcomes'], 'samples': m['samples'][:5], 'exhaustive': True, 'vacuity_failures': vac}
     return cov, m['violations']
 
